@@ -65,7 +65,51 @@ theorem unsubscribe_api (p : Unsubscribe) (op : SetOp) : Gen.Unsubscribe.api p o
 theorem pingReq_api (p : Ping) (op : SetOp) : Gen.PingReq.api p op = none := rfl
 theorem pingResp_api (p : Ping) (op : SetOp) : Gen.PingResp.api p op = none := rfl
 
+/-! ## accessors: every exported accessor's value is the entry of that name in the model's `view` -/
+
+theorem auth_accessors (p : Auth) : ∀ kv ∈ Gen.Auth.accessors p, kv ∈ p.view := by
+  simp [Gen.Auth.accessors, Auth.view]
+
+theorem connAck_accessors (p : ConnAck) : ∀ kv ∈ Gen.ConnAck.accessors p, kv ∈ p.view := by
+  simp [Gen.ConnAck.accessors, ConnAck.view, ConnAck.sessionPresent]
+
+theorem connect_accessors (p : Connect) : ∀ kv ∈ Gen.Connect.accessors p, kv ∈ p.view := by
+  simp [Gen.Connect.accessors, Connect.view, Connect.fCleanStart]
+
+theorem disconnect_accessors (p : Disconnect) : ∀ kv ∈ Gen.Disconnect.accessors p, kv ∈ p.view := by
+  simp [Gen.Disconnect.accessors, Disconnect.view]
+
+theorem pubAck_accessors (p : Ack) : ∀ kv ∈ Gen.PubAck.accessors p, kv ∈ p.view := by
+  simp [Gen.PubAck.accessors, Ack.view]
+
+theorem pubComp_accessors (p : Ack) : ∀ kv ∈ Gen.PubComp.accessors p, kv ∈ p.view := by
+  simp [Gen.PubComp.accessors, Ack.view]
+
+theorem pubRec_accessors (p : Ack) : ∀ kv ∈ Gen.PubRec.accessors p, kv ∈ p.view := by
+  simp [Gen.PubRec.accessors, Ack.view]
+
+theorem pubRel_accessors (p : Ack) : ∀ kv ∈ Gen.PubRel.accessors p, kv ∈ p.view := by
+  simp [Gen.PubRel.accessors, Ack.view]
+
+theorem publish_accessors (p : Publish) : ∀ kv ∈ Gen.Publish.accessors p, kv ∈ p.view := by
+  simp [Gen.Publish.accessors, Publish.view, Publish.duplicate, Publish.retain]
+
+theorem subAck_accessors (p : SubAck) : ∀ kv ∈ Gen.SubAck.accessors p, kv ∈ p.view := by
+  simp [Gen.SubAck.accessors, SubAck.view]
+
+theorem subscribe_accessors (p : Subscribe) : ∀ kv ∈ Gen.Subscribe.accessors p, kv ∈ p.view := by
+  simp [Gen.Subscribe.accessors, Subscribe.view]
+
+theorem unsubAck_accessors (p : SubAck) : ∀ kv ∈ Gen.UnsubAck.accessors p, kv ∈ p.view := by
+  simp [Gen.UnsubAck.accessors, SubAck.view]
+
+theorem unsubscribe_accessors (p : Unsubscribe) : ∀ kv ∈ Gen.Unsubscribe.accessors p, kv ∈ p.view := by
+  simp [Gen.Unsubscribe.accessors, Unsubscribe.view]
+
+theorem undefined_accessors (p : Undefined) : ∀ kv ∈ Gen.Undefined.accessors p, kv ∈ p.view := by
+  simp [Gen.Undefined.accessors, Undefined.view]
+
 /-- every exported setter was translated and has a `SetOp` constructor -/
-theorem complete : Gen.untranslatedSetters = [] ∧ Gen.unmodelledSetters = [] := by decide
+theorem complete : Gen.untranslatedSetters = [] ∧ Gen.unmodelledSetters = [] ∧ Gen.untranslatedAccessors = [] := by decide
 
 end Mq.Tie.Api
